@@ -225,6 +225,26 @@ pub fn c03_scenario(seed: u64, idx: u64) -> Scenario {
         }
         sc.conns.push(Conn::simple(i, if overlapped { 0 } else { i as u32 }, req("GET", &via, &hs, b""), "range"));
     }
+    // afterwards, on the same workers: requests that carry no Range header at all - whole, or torn
+    // behind the request line or inside the header block (the server reads once)
+    if rng.chance(1, 4) {
+        let base = sc.conns.len();
+        for k in 0..rng.range(1, 3) {
+            let (via, _) = files[rng.below(files.len())].clone();
+            let bytes = req("GET", &via, &[("Accept", "*/*"), ("User-Agent", "curl/8.0")], b"");
+            let mut c = Conn::simple(base + k, (n + k) as u32, bytes, "no_range");
+            if rng.chance(2, 3) {
+                let len = c.request.0.len();
+                let line_end = crate::util::find(&c.request.0, b"\r\n").map(|p| p + 2).unwrap_or(len / 2);
+                let cut = match rng.below(3) { 0 => line_end, 1 => rng.range(line_end, len - 1), _ => rng.range(4, line_end) };
+                if cut > 0 && cut < len {
+                    c.delivery = vec![Seg { len: cut, yields_before: 0 }, Seg { len: len - cut, yields_before: rng.range(2, 8) as u32 }];
+                    c.class = "no_range_torn".into();
+                }
+            }
+            sc.conns.push(c);
+        }
+    }
     sc
 }
 
